@@ -114,6 +114,16 @@ def family(ctx):
                 add(B.vmdk(capacity_sectors=sz, desc_num=n, footer=foot, ctype=ct,
                            descriptor=B.vmdk_descriptor_exact(n * 512, ct, sz, last)),
                     'exact-fill desc_num=%d last=%s footer=%s sectors=%d' % (n, last, foot, sz))
+    # VMDK descriptor region with stale bytes after the NUL that ends the descriptor text
+    for n in (2, 20):
+        for slack in (b'ddb.comment = "stale text after the terminator"\n', 'caf\u00e9 r\u00e9sum\u00e9\n'.encode('utf-8') * 3,
+                      b'\xff', b'\x00\x00\xfe\x80' * 16):
+            for foot in (None, 'good'):
+                ct = 'streamOptimized' if foot else 'monolithicSparse'
+                d0 = B.vmdk_descriptor(ct, three[0])
+                add(B.vmdk(capacity_sectors=three[0], desc_num=n, footer=foot, ctype=ct,
+                           descriptor=d0 + b'\x00' + slack),
+                    'slack after NUL %r desc_num=%d footer=%s' % (slack[:6], n, foot))
     # ISO
     for bs in (512, 1024, 2048, 4096, 65535):
         for blocks in (0, 1, 2, 0x7fffffff, 0x80000000, 0xffffffff,
@@ -187,6 +197,105 @@ def _job(job):
             'bad': bad, 'caps': r.caps, 'ms': int((time.time() - t0) * 1000)}
 
 
+# ---------------------------------------------------------------------------
+# structures beyond 4 GiB: offsets that do not fit 32 bits. The stream is never
+# materialised: it is a list of pieces, ('zeros', n) standing for n zero bytes
+# delivered from one re-used block.
+
+ZERO_BLOCK = bytes(4 << 20)
+
+
+def huge_cases(seed):
+    out = []
+    G4 = 1 << 32
+    for big in (G4, G4 + (1 << 20), G4 - 65536, (1 << 33) + 4096):
+        small = 1 << 20
+        im = B.vhdx(size=(seed % 50 + 3) << 30, meta_offset=small)
+        d = bytearray(im.data)
+        # the metadata region entry of the region table: 64-bit file offset
+        at = d.index(struct_pack_q(small), B.VHDX_HEADER)
+        d[at:at + 8] = struct_pack_q(big)
+        out.append(('vhdx', 'vhdx metadata region at %#x' % big,
+                    [bytes(d[:small]), ('zeros', big - small), bytes(d[small:])], im.size))
+    for sectors in ((1 << 23) + 8, (1 << 24) + 1):
+        h = B.luks(version=1, payload_sectors=sectors, length=592).data
+        total = sectors * 512 + (1 << 20) + 5
+        out.append(('luks', 'luks payload at sector %d' % sectors, [h, ('zeros', total - 592)],
+                    total - sectors * 512))
+    out.append(('raw', 'raw 4 GiB + 5', [('zeros', G4 + 5)], G4 + 5))
+    return out
+
+
+def struct_pack_q(v):
+    import struct
+    return struct.pack('<Q', v)
+
+
+def feed_pieces(eat, pieces, chunk):
+    """Deliver the pieces in chunks of `chunk` bytes (pieces are not merged across their
+    borders: each border is a cut as well)."""
+    for pc in pieces:
+        if isinstance(pc, tuple):
+            n = pc[1]
+            while n > 0:
+                k = min(n, chunk)
+                eat(ZERO_BLOCK[:k] if k != len(ZERO_BLOCK) else ZERO_BLOCK)
+                n -= k
+        else:
+            for i in range(0, len(pc), chunk):
+                eat(pc[i:i + chunk])
+
+
+def _huge_job(job):
+    ci, chunk, via, seed = job
+    from oslo_utils.imageutils import format_inspector as fi
+    from vlib.mc import stream as S
+    fmt, name, pieces, declared = huge_cases(seed)[ci]
+    try:
+        if via == 'inspector':
+            insp = fi.ALL_FORMATS[fmt]()
+            feed_pieces(insp.eat_chunk, pieces, chunk)
+            insp.finish()
+            got = (S._q(lambda: bool(insp.format_match)), S._q(lambda: insp.virtual_size))
+        else:
+            class Feeder:
+                buf = b''
+
+                def read(self, n):
+                    b, self.buf = self.buf, b''
+                    return b
+            src = Feeder()
+            w = fi.InspectWrapper(src)
+
+            def eat(c):
+                src.buf = c
+                w.read(len(c))
+            feed_pieces(eat, pieces, chunk)
+            w.close()
+            f = w.format
+            got = (str(f) == fmt, S._q(lambda: f.virtual_size))
+    except Exception as e:
+        got = ('raises', type(e).__name__, str(e)[:80])
+    return {'case': ci, 'name': name, 'chunk': chunk, 'via': via, 'got': got, 'want': (True, declared)}
+
+
+def run_huge(ctx, rep):
+    from vlib import par as _par
+    n = len(huge_cases(ctx.seed))
+    jobs = [(ci, chunk, via, ctx.seed) for ci in range(n) for chunk in (4 << 20, (1 << 20) + 17)
+            for via in ('inspector', 'wrapper')]
+    for r in _par.pmap(_huge_job, jobs):
+        rep.count('huge_offset_runs')
+        rep.count('evaluations')
+        rep.count('traces_validated_against_impl')
+        rep.nontrivial('huge/%s/%d/%s' % (r['name'], r['chunk'], r['via']))
+        if tuple(r['got']) != tuple(r['want']):
+            rep.fail('T2-beyond-4GiB:%s' % r['name'].split(' ')[0],
+                     {'stream': r['name'], 'chunk_size': r['chunk'], 'via': r['via'],
+                      'reported': list(r['got']), 'expected': list(r['want'])},
+                     {'huge': [r['case'], r['chunk'], r['via']], 'kind': 'huge'})
+
+
 def run(ctx):
     global _IMAGES
     from vlib.mc import stream as S    # noqa: F401
@@ -233,6 +342,7 @@ def run(ctx):
                      {'image': im.name, 'position': b['p'], 'reported': b['got'],
                       'expected': b['want'], 'path': b['path'][-5:]},
                      dict(base, kind='I3', path=b['path'], position=b['p']))
+    run_huge(ctx, rep)
     rep.count('images', len(_IMAGES))
     rep.count('distinct_format_size_pairs', len(sizes_seen))
     for im in (_IMAGES[3], _IMAGES[len(_IMAGES) // 2], _IMAGES[-1]):
@@ -254,6 +364,12 @@ def run(ctx):
 
 def replay(payload):
     from vlib.mc import stream as S
+    if payload.get('kind') == 'huge':
+        import os
+        ci, chunk, via = payload['huge']
+        r = _huge_job((ci, chunk, via, int(os.environ.get('VERIF_SEED', '0'))))
+        return {'violates': tuple(r['got']) != tuple(r['want']), 'reported': list(r['got']),
+                'expected': list(r['want'])}
     data = unpack(payload['image'])
     system = (S.WrapperSystem() if payload['system'] == 'wrapper'
               else S.InspectorSystem(payload['system']))
